@@ -26,6 +26,12 @@ type C17 struct {
 	Keys   []*ecdsa.PrivateKey
 	Chains []string
 	Leave  bool // validator A may leave for good (x/staking deletes its record) and be created again
+	// GenKeys: the chain starts from a genesis file that binds A to (o1, e1) on every chain; 1: the entries carry no chain id
+	// of their own (the enclosing external state names the chain), 2: they carry the OTHER chain's id (a hand-merged file)
+	GenKeys int
+	// Extra: chain ids registrations are also sent for, although they are not listed in Params.Chains (SetDelegateKeys takes
+	// any chain id); the registries of the listed chains are what is checked
+	Extra []string
 }
 
 func NewC17(tier string) *C17 {
@@ -60,6 +66,18 @@ func (c *C17) Genesis() hub.Genesis {
 		}
 	}
 	g.Accounts = append(g.Accounts, c.Orchs[0], c.Orchs[1])
+	if c.GenKeys != 0 {
+		for i, ch := range c.Chains {
+			inner := ""
+			if c.GenKeys == 2 {
+				inner = c.Chains[(i+1)%len(c.Chains)]
+			}
+			es := &mhubtypes.ExternalState{ChainId: ch, LatestBlockHeight: mhubtypes.LatestBlockHeight{}}
+			es.DelegateKeys = append(es.DelegateKeys, &mhubtypes.MsgDelegateKeys{ValidatorAddress: c.Vals[0].Oper.String(), OrchestratorAddress: c.Orchs[0].String(),
+				ExternalAddress: crypto.PubkeyToAddress(c.Keys[0].PublicKey).Hex(), EthSignature: []byte{0}, ChainId: inner})
+			g.Hub.ExternalStates = append(g.Hub.ExternalStates, es)
+		}
+	}
 	return g
 }
 
@@ -87,12 +105,20 @@ func (g *c17Ghost) Canon() string {
 	sort.Strings(ks)
 	return strings.Join(ks, ",")
 }
-func (c *C17) NewGhost(in *hub.Instance) Ghost { return &c17Ghost{Cur: map[string]c17Bind{}} }
+func (c *C17) NewGhost(in *hub.Instance) Ghost {
+	g := &c17Ghost{Cur: map[string]c17Bind{}}
+	if c.GenKeys != 0 {
+		for _, ch := range c.Chains {
+			g.Cur[ch+"/"+c.Vals[0].Oper.String()] = c17Bind{Orch: c.Orchs[0].String(), Ext: crypto.PubkeyToAddress(c.Keys[0].PublicKey).Hex()}
+		}
+	}
+	return g
+}
 
 // Delegate(chain; val, orch, ext, sigkey(0 same,1 other), seqmode(0 correct,1 stale,2 other validator's name))
 func (c *C17) Ops(s *HState) []engine.Op {
 	var ops []engine.Op
-	for _, ch := range c.Chains {
+	for _, ch := range append(append([]string{}, c.Chains...), c.Extra...) {
 		for v := range c.Vals {
 			for o := range c.Orchs {
 				for e := range c.Keys {
@@ -216,6 +242,26 @@ func (c *C17) invariants(in *hub.Instance, g *c17Ghost, st *engine.Step) {
 	ctx := in.Ctx()
 	for _, ch := range c.Chains {
 		chain := mhubtypes.ChainID(ch)
+		// the registry of the chain as clients (and the genesis export) see it: exactly the bindings made for this chain
+		if res, err := in.Hub.DelegateKeys(sdk.WrapSDKContext(ctx), &mhubtypes.DelegateKeysRequest{ChainId: ch}); err == nil {
+			listed := map[string]bool{}
+			for _, dk := range res.DelegateKeys {
+				listed[dk.ValidatorAddress] = true
+				b, ok := g.Cur[ch+"/"+dk.ValidatorAddress]
+				if !ok {
+					st.Violate("C17", "registry_lists_a_binding_nobody_made", "getDelegateKeys", "chain %s: the registry lists validator %s (external address %s, orchestrator %q); no registration for %s created it", ch, dk.ValidatorAddress, dk.ExternalAddress, dk.OrchestratorAddress, ch)
+					continue
+				}
+				if b.Ext != dk.ExternalAddress || b.Orch != dk.OrchestratorAddress {
+					st.Violate("C17", "registry_view_differs_from_registration", "getDelegateKeys", "chain %s: %s registered (%s, %s), the registry lists (%s, %s)", ch, dk.ValidatorAddress, b.Ext, b.Orch, dk.ExternalAddress, dk.OrchestratorAddress)
+				}
+			}
+			for k := range g.Cur {
+				if strings.HasPrefix(k, ch+"/") && !listed[strings.TrimPrefix(k, ch+"/")] {
+					st.Violate("C17", "registry_view_differs_from_registration", "getDelegateKeys", "chain %s: the binding of %s is missing from the registry", ch, strings.TrimPrefix(k, ch+"/"))
+				}
+			}
+		}
 		// val -> ext must be injective (raw index)
 		extOwner := map[string]string{}
 		for _, v := range c.Vals {
@@ -298,11 +344,18 @@ func init() {
 		edge2.Chains = []string{"ethereum"}
 		edge2.Vals = []hub.Validator{edgeValidator("A", 0x00, 0x00), edgeValidator("B", 0xff, 0xff), hub.NewValidator("C")}
 		edge2.Orchs[2] = edge2.Vals[1].Acc
+		gk1, gk2 := NewC17(tier), NewC17(tier)
+		gk1.GenKeys, gk2.GenKeys = 1, 2
+		un := NewC17(tier)
+		un.Chains, un.Extra = []string{"bsc"}, []string{"bsc2", "bs"}
 		return []MultiCase{{Name: "chains ethereum, bsc", Spec: two, Cfg: engine.Config{MaxDepth: d2, Deadline: dl, ReplayLeaf: 30}},
 				{Name: "one chain, longer sequences", Spec: one, Cfg: engine.Config{MaxDepth: d1, Deadline: dl, ReplayLeaf: 30}},
 				{Name: "operator addresses 0xff..fe and 0x00..01", Spec: edge, Cfg: engine.Config{MaxDepth: d2, Deadline: dl, ReplayLeaf: 30}},
 				{Name: "operator addresses 0x00..00 and 0xff..ff", Spec: edge2, Cfg: engine.Config{MaxDepth: d2, Deadline: dl, ReplayLeaf: 30}},
-				{Name: "validator A leaves for good and is created again", Spec: lv, Cfg: engine.Config{MaxDepth: d2, Deadline: dl, ReplayLeaf: 30}}}, []string{
+				{Name: "validator A leaves for good and is created again", Spec: lv, Cfg: engine.Config{MaxDepth: d2, Deadline: dl, ReplayLeaf: 30}},
+				{Name: "A's keys come from the genesis file (entries without a chain id of their own)", Spec: gk1, Cfg: engine.Config{MaxDepth: d2 - 1, Deadline: dl, ReplayLeaf: 30}},
+				{Name: "A's keys come from the genesis file (entries naming the other chain)", Spec: gk2, Cfg: engine.Config{MaxDepth: d2 - 1, Deadline: dl, ReplayLeaf: 30}},
+				{Name: "registrations for chain ids that are not listed (bsc2, bs) next to bsc", Spec: un, Cfg: engine.Config{MaxDepth: d2 - 1, Deadline: dl, ReplayLeaf: 30}}}, []string{
 				"validators A, B (bonded), C (unknown to staking); orchestrator accounts o1, o2 and B's own account; external keys e1, e2; chains ethereum, bsc; signer sequences are bumped like the ante handler does (persisting on failure)",
 				"that the transaction is signed by the account MsgDelegateKeys.GetSigners names is enforced by the SDK ante handler; the check verifies GetSigners names exactly the validator's own account",
 				"only-if direction: a successful registration must carry a valid signature of the external key over (validator, sequence) and keep the registry one-to-one; rejecting a valid one is not a violation",
